@@ -37,6 +37,12 @@ def worker_main(args):
   mod = load_check(args.property)
   ctx = common.Ctx(args.property, args.tier, args.seed, args.shard,
                    args.nshards, args.budget)
+  # driver self-test: 'k:path' makes shard k die once from SIGSEGV (path marks "already died")
+  st = os.environ.get('VV_SELFTEST_KILL_SHARD', '')
+  if st and st.split(':', 1)[0] == str(args.shard) and not os.path.exists(st.split(':', 1)[1]):
+    open(st.split(':', 1)[1], 'w').close()
+    import signal
+    os.kill(os.getpid(), signal.SIGSEGV)
   try:
     if args.replay:
       with open(args.replay) as fh:
@@ -81,45 +87,63 @@ def driver_main(args):
   env['VV_TMP'] = tmp
   if args.replay:
     nshards = 1
-  for k in range(nshards):
+  def launch(k, attempt):
     out = os.path.join(tmp, f'shard{k}.json')
     cmd = [sys.executable, '-m', 'vv.run', prop, '--tier', tier, '--worker',
            '--shard', str(k), '--nshards', str(nshards), '--out', out,
            '--seed', str(seed), '--budget', str(budget)]
     if args.replay:
       cmd += ['--replay', os.path.abspath(args.replay)]
-    log = open(os.path.join(tmp, f'shard{k}.log'), 'w')
-    procs.append((k, out, log, subprocess.Popen(
-        cmd, cwd=VERIF, env=env, stdout=log, stderr=subprocess.STDOUT)))
+    log = open(os.path.join(tmp, f'shard{k}.{attempt}.log'), 'w')
+    return (k, out, log, subprocess.Popen(
+        cmd, cwd=VERIF, env=env, stdout=log, stderr=subprocess.STDOUT))
+
   results = []
   inconclusive = []
-  deadline = time.time() + watchdog
-  for k, out, log, p in procs:
-    try:
-      p.wait(timeout=max(1.0, deadline - time.time()))
-    except subprocess.TimeoutExpired:
-      p.kill()
-      p.wait()
-      inconclusive.append(f'shard {k} exceeded the wall-clock watchdog')
-    log.close()
-    if os.path.exists(out):
-      with open(out) as fh:
-        results.append(json.load(fh))
-    else:
+  driver_notes = []
+  todo = list(range(nshards))
+  for attempt in (0, 1):
+    procs = [launch(k, attempt) for k in todo]
+    todo = []
+    deadline = time.time() + watchdog
+    for k, out, log, p in procs:
+      timed_out = False
+      try:
+        p.wait(timeout=max(1.0, deadline - time.time()))
+      except subprocess.TimeoutExpired:
+        p.kill()
+        p.wait()
+        timed_out = True
+        inconclusive.append(f'shard {k} exceeded the wall-clock watchdog')
+      log.close()
+      if os.path.exists(out):
+        with open(out) as fh:
+          results.append(json.load(fh))
+        continue
+      if timed_out:
+        continue
       tail = ''
       try:
         with open(log.name) as fh:
           tail = fh.read()[-1500:]
       except OSError:
         pass
+      if attempt == 0 and p.returncode is not None and p.returncode < 0:
+        # the worker process died from a signal (native crash in a numerical library,
+        # OOM kill): nothing it had observed was reported; the shard is run once more
+        driver_notes.append(f'shard {k} died from signal {-p.returncode} and was run again')
+        todo.append(k)
+        continue
       inconclusive.append(f'shard {k} wrote no result (rc={p.returncode}): {tail}')
+    if not todo:
+      break
   # ---- merge -----------------------------------------------------------
   evaluations = sum(r['evaluations'] for r in results)
   distinct = set()
   counters = {}
   samples = []
   violations = []
-  notes = []
+  notes = list(driver_notes)
   for r in results:
     distinct.update(r['distinct'])
     common.merge_counters(counters, r['counters'])
